@@ -110,7 +110,7 @@ def sev(e):
 def coq_case(o):
     i = o["in"]
     cfg = "{| c_chunk := %s; c_addrs := %s; c_topics := %s; c_finflag := %s |}" % (
-        n(i["chunk"]), lst(n(a) for a in i["addrs"]), lst(n(t) for t in i["topics"]), cbool(i["mode"] == "LF"))
+        n(i["chunk"]), lst(n(a) for a in i["addrs"]), lst(n(t) for t in i["topics"]), cbool(i["mode"] == "LF"))   # SF (syncer on the safe block, finalized type Finalized): NewEVMDownloader clamps the finalized type to Safe, which is not IsFinalized(): every block is tracked, as in LS
     versions = lst(lst("(%s, %s)" % (n(b["h"]), lst("mkL %s %s %s %s" % (n(l["a"]), n(l["t"]), cbool(l["r"]), n(l["d"]))
                                                     for l in b["logs"])) for b in v) for v in i["versions"])
     w0 = "(%s, %s, %s)" % (n(i["w0"]["v"]), n(i["w0"]["head"]), n(i["w0"]["fin"]))
